@@ -138,6 +138,8 @@ def plan_c04(pid, rng, tier):
 
 def plan_c05(pid, rng, tier, maxn=None):
     n = rng.randint(3, maxn or (6 if tier == "quick" else 10))
+    if pid % 6 == 3:
+        n = 3                                              # (directed plan 3: every member is probed by every other in a moment)
     fam = "fast" if tier == "quick" or rng.random() < 0.7 else rng.choice(["local", "lan"])
     f = FAMILIES[fam]
     names = ["n%d" % (i + 1) for i in range(n)]
@@ -148,7 +150,7 @@ def plan_c05(pid, rng, tier, maxn=None):
     ev.append({"at": t0, "kind": "faults", "delay": 1, "jitter": rng.choice([10, f["pt"]]), "loss": rng.choice([0.05, 0.2, 0.5]),
                "dup": rng.choice([0, 0.2]), "cut": rng.choice([0, 0.3])})
     down, left = set(), set()
-    directed = pid % 5
+    directed = pid % 6
     if directed == 0:
         # announcements missed by everybody: datagrams are blacked out for a while (streams still work, so the
         # TCP fallback keeps every probe succeeding and nobody is suspected) while a member updates its metadata;
@@ -187,7 +189,21 @@ def plan_c05(pid, rng, tier, maxn=None):
         ev.append({"at": back + 150, "kind": "join", "node": vic, "to": rng.choice([x for x in names if x != vic])})
         dur = max(dur, back - t0 + 3000)
         left.add(vic)
-    for k in range(rng.randint(1, 8) if directed not in (0, 1, 2) else rng.randint(0, 2)):
+    elif directed == 3:
+        # every member is falsely suspected for a moment (a short datagram blackout without TCP fallback), everybody
+        # refutes, and later one member really crashes: the earlier, refuted suspicion must not stand in the way
+        plan["noTcp"] = True
+        ev[-1].update(loss=0.02, jitter=10, cut=0)
+        base = dict(ev[-1])
+        at = t0 + rng.randrange(0, 2000)
+        black = 2 * f["pi"] + f["pt"]                      # below the shortest suspicion timeout (SuspicionMult x ProbeInterval)
+        ev.append(dict(base, at=at, loss=1.0))
+        ev.append(dict(base, at=at + black))
+        vic = rng.choice(names[1:])
+        ev.append({"at": at + black + 10 * f["pi"], "kind": "crash", "node": vic})
+        dur = max(dur, black + 12 * f["pi"])
+        left.update(names)                                 # (no random crashes, leaves or updates on top)
+    for k in range(rng.randint(1, 8) if directed not in (0, 1, 2, 3) else rng.randint(0, 2)):
         at = t0 + rng.randrange(0, dur)
         kind = rng.choice(["partition", "partition", "crash", "crash", "leave", "update"])
         nm = rng.choice(names)
